@@ -114,3 +114,61 @@ def enum_member(e, enum_name):
     if isinstance(e, ast.Attribute) and norm(e.value).split('.')[-1] == enum_name:
         return e.attr
     return None
+
+
+def unit_functions(prog, fn, depth=2):
+    """fn together with the private helpers of its own class / module that it calls (self._x(...), _x(...)) - what a
+    maintainer gets by 'extract method'.  Clauses about what a function does are decided on this unit, so that moving
+    a few statements into a helper does not change the verdict."""
+    out = [fn]
+    seen = {fn.key}
+    frontier = [fn]
+    for _ in range(depth):
+        nxt = []
+        for f in frontier:
+            for c in walk_fn(f):
+                if not isinstance(c, ast.Call):
+                    continue
+                name = None
+                if isinstance(c.func, ast.Attribute) and isinstance(c.func.value, ast.Name) and \
+                        c.func.value.id in ('self', 'cls') and c.func.attr.startswith('_') and \
+                        not c.func.attr.startswith('__'):
+                    name = c.func.attr
+                    cand = None
+                    if f.owner_class is not None:
+                        for k in prog.mro(f.owner_class):
+                            if name in k.methods:
+                                cand = k.methods[name]
+                                break
+                elif isinstance(c.func, ast.Name) and c.func.id.startswith('_'):
+                    name = c.func.id
+                    cand = f.module.functions.get(name) if hasattr(f.module, 'functions') else None
+                    if cand is None:
+                        cand = f.nested.get(name) or (f.parent.nested.get(name) if f.parent is not None else None)
+                else:
+                    continue
+                if cand is not None and cand.key not in seen:
+                    seen.add(cand.key)
+                    out.append(cand)
+                    nxt.append(cand)
+            for g in f.nested.values():
+                if g.key not in seen:
+                    seen.add(g.key)
+                    out.append(g)
+                    nxt.append(g)
+        frontier = nxt
+    return out
+
+
+def none_test(e):
+    """('is_none'|'not_none', tested expression text) for `x is None` / `x is not None` / `x == None`, else None."""
+    if isinstance(e, ast.UnaryOp) and isinstance(e.op, ast.Not):
+        r = none_test(e.operand)
+        return None if r is None else ({'is_none': 'not_none', 'not_none': 'is_none'}[r[0]], r[1])
+    if isinstance(e, ast.Compare) and len(e.ops) == 1 and isinstance(e.comparators[0], ast.Constant) and \
+            e.comparators[0].value is None:
+        if isinstance(e.ops[0], (ast.Is, ast.Eq)):
+            return 'is_none', norm(e.left)
+        if isinstance(e.ops[0], (ast.IsNot, ast.NotEq)):
+            return 'not_none', norm(e.left)
+    return None
